@@ -95,6 +95,14 @@ func (e *Engine) ctxCancel(s *State, id int, err, cause Value) {
 		}
 	}
 	for _, f := range afs {
+		if f != nil && f.native != "" {
+			// a native closure (another context's cancel function): cancellation cascades at once
+			switch f.native {
+			case "ctx.cancel", "ctx.cancelCause":
+				e.ctxCancel(s, f.data.(Ptr).obj, e.ctxGlobalErr(s, "Canceled"), Iface{})
+			}
+			continue
+		}
 		if f != nil {
 			// run in its own goroutine (goat-owned: it was registered by library code)
 			ng := &G{gen: s.gen, id: fmt.Sprintf("af%d.%d", id, len(s.gs)), name: "AfterFunc:" + shortFn(f.fn.String())}
@@ -233,6 +241,10 @@ func (e *Engine) ctxNative(fi *FnInfo) *Native {
 			id := e.cancelRoot(s, e.ctxOf(s, args[0]))
 			f := args[1].(*FuncV)
 			o := e.obj(s, id)
+			if o.ctx.isDone && f.native != "" {
+				e.ctxCancel(s, f.data.(Ptr).obj, e.ctxGlobalErr(s, "Canceled"), Iface{})
+				return &FuncV{native: "ctx.stop", data: Tuple{Ptr{obj: id}, ts.Const(64, 1<<20)}}
+			}
 			if o.ctx.isDone {
 				ng := &G{gen: s.gen, id: fmt.Sprintf("af%d.%d", id, len(s.gs)), name: "AfterFunc"}
 				s.gs = append(s.gs, ng)
